@@ -11,6 +11,7 @@ import (
 	"testing"
 
 	"verifharness/internal/evid"
+	"verifharness/internal/kf"
 )
 
 // Race reports. The driver runs race-enabled tests with GORACE=halt_on_error=1,
@@ -145,6 +146,28 @@ func parseRaceLog(txt string) []raceReport {
 		res = append(res, raceReport{Key: strings.Join(accesses, "+"), Text: block, Harness: harness})
 	}
 	return res
+}
+
+// reportRaces turns the reports the detector wrote since the last call into findings.
+func reportRaces(t fataler) {
+	t.Helper()
+	for _, rep := range newRaceReports() {
+		if rep.Harness {
+			atomic.AddInt64(&raceKnown, 1)
+			evid.Count("race_by_harness." + rep.Key)
+			continue
+		}
+		key := "c14.race." + rep.Key
+		if kf.Listed("C14", key) {
+			atomic.AddInt64(&raceKnown, 1)
+		} else {
+			atomic.AddInt64(&raceUnknown, 1)
+		}
+		evid.Count("race." + rep.Key)
+		if kf.Report(t, "C14", key, "data race between pool operations:\n%s", rep.Text) {
+			continue
+		}
+	}
 }
 
 func mainWithRaceLog(m *testing.M) {
